@@ -203,6 +203,35 @@ def proof_status(prop):
         raise Broken("could not read assumptions of %s" % prop, o[-2000:])
     return res
 
+def coqchk_status(prop):
+    """thorough tier: re-check the compiled theorems and everything they depend on with the independent
+    checker and report the axioms they rely on (result cached by the content of the .vo closure)"""
+    vos = [f[:-2] + ".vo" for f in coq_sources(prop)]
+    h = hashlib.md5()
+    for v in vos:
+        try:
+            h.update(open(v, "rb").read())
+        except OSError:
+            pass
+    cache = os.path.join(BUILD, "coqchk_%s_%s.json" % (prop, h.hexdigest()[:12]))
+    if os.path.exists(cache):
+        return json.load(open(cache))
+    t0 = time.time()
+    rc, o, e = _run(["timeout", "3000", "coqchk", "-silent", "-o", "-Q", COQ, "V", "V.Properties." + prop], timeout=3100)
+    out = o + e
+    m = re.search(r"\* Axioms:(.*?)\n\s*\n\* Constants/Inductives relying on type-in-type:(.*?)\n\s*\n"
+                  r"\* Constants/Inductives relying on unsafe \(co\)fixpoints:(.*?)\n\s*\n\* Inductives whose positivity is assumed:(.*?)\n",
+                  out, re.S)
+    res = {"exit": rc, "wall_s": round(time.time() - t0, 1), "axioms": None}
+    if m:
+        res.update({"axioms": m.group(1).strip(), "type_in_type": m.group(2).strip(),
+                    "unsafe_fixpoints": m.group(3).strip(), "assumed_positivity": m.group(4).strip()})
+    else:
+        res["tail"] = out[-1500:]
+    if rc == 0 and m:
+        json.dump(res, open(cache, "w"))
+    return res
+
 # ---------------------------------------------------------------- running
 def run_driver(prop, fn, lines, timeout=3600):
     if not lines:
@@ -302,6 +331,14 @@ class Check:
             build_coq(self.prop)
             self.proofs = proof_status(self.prop)
             build_driver(self.prop)
+            if self.thorough and os.environ.get("VERIF_NO_COQCHK") != "1":
+                r = coqchk_status(self.prop)
+                self.extra["coqchk"] = r
+                if r["exit"] != 0 or r.get("axioms") is None:
+                    raise Broken("coqchk does not accept Properties/%s.vo" % self.prop, str(r)[-1500:])
+                bad = [k for k in ("type_in_type", "unsafe_fixpoints", "assumed_positivity") if r.get(k) != "<none>"]
+                if bad:
+                    raise Broken("coqchk reports %s for %s" % (bad, self.prop), str(r))
         except Broken as b:
             self.broken.append(b)
         if harness:
